@@ -65,6 +65,8 @@ func (e *vExpr) String() string {
 		return fmt.Sprintf("P%d", e.prod)
 	case "uni":
 		return "U"
+	case "pbl":
+		return "<parseable>"
 	case "eof":
 		return "EOF"
 	case "anylit":
@@ -130,7 +132,7 @@ func vEnum(size, nprod int, memo map[int][]*vExpr) []*vExpr {
 			out = append(out, &vExpr{op: "prod", prod: i})
 		}
 		if vWithUnion {
-			out = append(out, &vExpr{op: "uni"}, &vExpr{op: "eof"}, &vExpr{op: "anylit"})
+			out = append(out, &vExpr{op: "uni"}, &vExpr{op: "eof"}, &vExpr{op: "anylit"}, &vExpr{op: "pbl"})
 		}
 	} else {
 		for _, u := range vUnary {
@@ -154,7 +156,8 @@ func vEnum(size, nprod int, memo map[int][]*vExpr) []*vExpr {
 
 func specNullable(e *vExpr, bodies []*vExpr, nul []bool) bool {
 	switch e.op {
-	case "lit", "lit2", "neg", "nonempty":
+	case "lit", "lit2", "neg", "nonempty", "pbl":
+		// (a production that parses itself is taken to consume input, like a token)
 		return false
 	case "prod":
 		return nul[e.prod]
@@ -272,6 +275,10 @@ func specLeftRecursiveAny(bodies []*vExpr) bool { return specLeftRec(bodies, tru
 
 // ---- building the real node graph ----
 
+type vPbl struct{ V string }
+
+func (p *vPbl) Parse(lex *lexer.PeekingLexer) error { p.V = lex.Next().Value; return nil }
+
 type vP0 struct{ X string }
 type vP1 struct{ Y string }
 type vP2 struct{ Z string }
@@ -286,6 +293,8 @@ func vBuild(e *vExpr, prods []*strct) node {
 		return &literal{s: "a\"  \\b%d\\", t: lexer.EOF}
 	case "prod":
 		return prods[e.prod]
+	case "pbl":
+		return &parseable{t: reflect.TypeOf(vPbl{})}
 	case "eof":
 		return &reference{typ: lexer.EOF, identifier: "EOF"}
 	case "anylit":
@@ -356,10 +365,18 @@ func vBuild(e *vExpr, prods []*strct) node {
 	panic("bad op")
 }
 
+// vAnonTypes: distinct struct types that all have the empty name.
+var vAnonTypes = []reflect.Type{reflect.TypeOf(struct{ A string }{}), reflect.TypeOf(struct{ B string }{}), reflect.TypeOf(struct{ C string }{})}
+
+var vUseAnonTypes = false
+
 func vGrammar(bodies []*vExpr) []*strct {
 	prods := make([]*strct, len(bodies))
 	for i := range bodies {
 		prods[i] = &strct{typ: vTypes[i], usages: 1}
+		if vUseAnonTypes {
+			prods[i].typ = vAnonTypes[i]
+		}
 	}
 	for i, b := range bodies {
 		prods[i].expr = vBuild(b, prods)
@@ -385,7 +402,7 @@ func validateNoPanic(n node) (err error, panicked interface{}) {
 // re-enter itself before consuming a token.
 func TestVerif_C08C06C19_LeftRecursion(t *testing.T) {
 	res := &verifResult{Check: "validate left recursion", Property: "C08 C06 C19", Exhaustive: true,
-		Bound: "all grammars with one production whose body has <= 4 (thorough: 5) operator/leaf nodes, and all grammars with two productions with bodies of <= 3 (thorough: P0 <= 3, P1 <= 4) nodes, over {literal, production reference, a union-typed reference (members: the other production), a reference to the EOF token, an untyped \"\" literal, sequence, choice, ? * + !, ~, (?= ), (?! ), capture, redundant parentheses}; node graphs built directly in-package; the smaller two-production grammars also entered through a union of all their productions; plus 7 128 larger shapes (11 prefixes x up to two of 8 wrappers x 4 second productions x 2 contexts) around a reference back to the production",
+		Bound: "all grammars with one production whose body has <= 4 (thorough: 5) operator/leaf nodes, and all grammars with two productions with bodies of <= 3 (thorough: P0 <= 3, P1 <= 4) nodes, over {literal, production reference, a union-typed reference (members: the other production), a reference to the EOF token, an untyped \"\" literal, a production that parses itself, sequence, choice, ? * + !, ~, (?= ), (?! ), capture, redundant parentheses}; node graphs built directly in-package; the smaller two-production grammars also entered through a union of all their productions and built over unnamed struct types; plus 7 128 larger shapes (11 prefixes x up to two of 8 wrappers x 4 second productions x 2 contexts) around a reference back to the production",
 		Rule: "distinct grammars; non-trivial = the specification says left-recursive, or the grammar has a nullable prefix / second alternative before a production reference"}
 	one, twoA, twoB := 4, 3, 3
 	if verifThorough() {
@@ -484,6 +501,10 @@ func TestVerif_C08C06C19_LeftRecursion(t *testing.T) {
 					check([]*vExpr{a, b})
 					if sa+sb <= 5 {
 						checkUnionRoot([]*vExpr{a, b})
+						// the same with productions of unnamed struct types (all called "")
+						vUseAnonTypes = true
+						check([]*vExpr{a, b})
+						vUseAnonTypes = false
 					}
 				}
 			}
